@@ -5,7 +5,7 @@
 From Coq Require Import List Bool Arith Lia ZArith Permutation.
 Import ListNotations.
 From SG Require Import Engine.Graph Engine.Dfs Engine.Sweep Engine.History.
-From SG Require Import Proofs.DfsProofs Proofs.SweepProofs Proofs.HistoryProofs Proofs.RelabelProofs.
+From SG Require Import Proofs.DfsAux Proofs.DfsProofs Proofs.SweepProofs Proofs.HistoryProofs Proofs.RelabelProofs.
 
 Lemma filter_len_le {X} (f : X -> bool) l : length (filter f l) <= length l.
 Proof. induction l as [|x l IH]; cbn [filter length]; [lia|]. destruct (f x); cbn [length]; lia. Qed.
@@ -30,6 +30,37 @@ Proof.
   - intros v Hv. rewrite H. unfold expected. destruct Hv as [Hv|Hv].
     + destruct (reachb g root v) eqn:E; [|reflexivity]. apply (reachb_iff g root v Hwf) in E. tauto.
     + rewrite Hv, andb_false_r. reflexivity.
+Qed.
+
+(* the ordering loop calls zero_() at most once per iteration, hence at most  sum over reached nodes of (1 + #operands)  times *)
+Lemma dstep_zlog g s s' : dstep g s = Some s' -> length (zlog s') <= S (length (zlog s)).
+Proof.
+  unfold dstep. destruct (stack s) as [|[n cs] rest]; [discriminate|].
+  destruct cs as [|c cs].
+  - intros H; inversion H; subst; cbn; lia.
+  - destruct (mem c (vis s)); intros H; inversion H; subst; cbn [zlog];
+      destruct (zeroes g (present s) c); cbn [length]; lia.
+Qed.
+
+Lemma drun_count_zlog g : forall fuel s k s' k',
+  drun_count g fuel s k = Some (s', k') -> length (zlog s') + k <= length (zlog s) + k'.
+Proof.
+  induction fuel as [|f IH]; intros s k s' k' H; cbn [drun_count] in H.
+  - destruct (dstep g s); [discriminate|]. inversion H; subst; lia.
+  - destruct (dstep g s) as [s1|] eqn:E.
+    + apply IH in H. apply dstep_zlog in E. lia.
+    + inversion H; subst; lia.
+Qed.
+
+Theorem zero_calls_linear g root present0 ord z p : wf g -> root < length g ->
+  dfs g root present0 (dfs_fuel g) = Some (ord, z, p) ->
+  length z <= list_sum (map (fun n => 1 + length (children (getn g n))) ord).
+Proof.
+  intros Hwf Hroot Hd.
+  destruct (dfs_visits_linear_ord g root present0 ord z p Hwf Hroot Hd) as [s [Hc _]].
+  pose proof (drun_count_drun g (dfs_fuel g) (dinit g root present0) 0) as Hr. rewrite Hc in Hr. cbn [option_map fst] in Hr.
+  unfold dfs in Hd. rewrite <- Hr in Hd. inversion Hd; subst. rewrite rev_length.
+  apply drun_count_zlog in Hc. unfold dinit in Hc. cbn [zlog length] in Hc. lia.
 Qed.
 
 Section Closed.
